@@ -25,8 +25,8 @@ constexpr int kMaxItems = 10;
 constexpr int kMaxWorkers = 3;
 constexpr int kMaxJoin = 2;
 
-enum ItemKind { I_NEST_START, I_NEST_DISCARD, I_NEST_CONNECT_DISCARD, I_DETACHED, I_FUTURE_AWAIT, I_FUTURE_DROP, I_FUTURE_CANCEL, I_ATTACH_START, I_KINDS };
-const char* kItemName[] = {"nest+start", "nest+discard", "nest+connect+discard", "spawn_detached", "future+await", "future+drop", "future+await+cancel", "attach+start"};
+enum ItemKind { I_NEST_START, I_NEST_DISCARD, I_NEST_CONNECT_DISCARD, I_DETACHED, I_FUTURE_AWAIT, I_FUTURE_DROP, I_FUTURE_CANCEL, I_ATTACH_START, I_ATTACH_CANCEL, I_KINDS };
+const char* kItemName[] = {"nest+start", "nest+discard", "nest+connect+discard", "spawn_detached", "future+await", "future+drop", "future+await+cancel", "attach+start", "attach+start+cancel"};
 
 // a counting allocator handed to spawn_detached / spawn_future: everything it serves must come back to it
 struct AllocCount { long allocs = 0, deallocs = 0, bytes = 0; };
@@ -111,12 +111,14 @@ void worker(World* w, Scope* scope, int me) {
     if (it.fault == 1) usim_alloc_fault_window(1);
     try {
     switch (it.kind) {
-      case I_NEST_START: case I_ATTACH_START: {
+      case I_NEST_START: case I_ATTACH_START: case I_ATTACH_CANCEL: {
         auto ns = unifex::nest(gate_sender{g}, *scope);
         { usim::np_scope np; it.issue_end = seq(); }
         yields(it.mid);
         started_op<S, decltype(ns)> op;
         op.start(&it.rec, S{}, std::move(ns));
+        // the consumer's own stop request: a second stop path into the same attach operation, free to overlap a stop of the scope
+        if (it.kind == I_ATTACH_CANCEL) { yields(it.mid); it.rec.request_stop(); }
         it.rec.wait();
         op.destroy();
         break;
@@ -192,7 +194,7 @@ void body_scope(const char* name) {
   bool any_alloc_fault = false;
   for (int i = 0; i < w->nitems; ++i) {
     SItem& it = w->items[i];
-    int k = draw(v1 ? 8 : 7);
+    int k = draw(v1 ? 9 : 7);
     it.kind = k;
     it.worker = draw(w->nworkers);
     it.pre = draw_small(8);
@@ -302,7 +304,7 @@ void body_scope(const char* name) {
     for (int i = 0; i < w->nitems; ++i) {
       SItem& it = w->items[i];
       Gate& g = w->gates[i];
-      bool has_rec = it.kind == I_NEST_START || it.kind == I_ATTACH_START || it.kind == I_FUTURE_AWAIT || it.kind == I_FUTURE_CANCEL;
+      bool has_rec = it.kind == I_NEST_START || it.kind == I_ATTACH_START || it.kind == I_ATTACH_CANCEL || it.kind == I_FUTURE_AWAIT || it.kind == I_FUTURE_CANCEL;
       if (it.threw) {
         // the exception left the scope as if the item had never been issued (the joins above did complete; leaks are the arena's business)
         KIT_CHECK(!g.started, "c09.throw-started", "issuing work %d (%s) threw, yet its operation was started", i, kItemName[it.kind]);
@@ -326,8 +328,9 @@ void body_scope(const char* name) {
         KIT_CHECK(!g.started, "c01.signal-without-start", "discarded nest-sender %d had its work started", i);
       if (has_rec) {
         KIT_CHECK(it.rec.completions == 1, "c09.outcome", "%s %d never completed", kItemName[it.kind], i);
-        if (it.kind == I_NEST_START || it.kind == I_ATTACH_START) {
+        if (it.kind == I_NEST_START || it.kind == I_ATTACH_START || it.kind == I_ATTACH_CANCEL) {
           bool scope_stopped = false;  // v1 attach answers a stop request on the scope with an immediate done
+          if (it.rec.stop_begin && it.rec.stop_begin < it.rec.done_seq) scope_stopped = true;  // ... and likewise one from its consumer
           if constexpr (v1) {
             if (w->stop_call_begin && w->stop_call_begin < it.rec.done_seq) scope_stopped = true;
             for (int j = 0; j < w->njoin; ++j)
@@ -391,7 +394,7 @@ void body_scope(const char* name) {
           // operation; whichever path claims it first delivers the stop and the other returns at once,
           // so cleanup() returning does not imply delivery for those.
           int kd = w->items[i].kind;
-          if (kd == I_FUTURE_DROP || kd == I_FUTURE_CANCEL) continue;
+          if (kd == I_FUTURE_DROP || kd == I_FUTURE_CANCEL || kd == I_ATTACH_CANCEL) continue;
           if (g.started && g.claimed && g.complete_begin > stop_by && g.stop_possible) {
             KIT_CHECK(g.stop_at_completion, "c08.cleanup-no-stop", "work %d (%s) completed (seq %llu, started %llu) after cleanup()/request_stop() returned (seq %llu) without having seen a stop request", i, kItemName[w->items[i].kind],
                       (unsigned long long)g.complete_begin, (unsigned long long)g.start_seq, (unsigned long long)stop_by);
